@@ -121,7 +121,7 @@ def r1_builtin_maps(ctx: Ctx) -> None:
     members = [t.id for st in enum.node.body if isinstance(st, ast.Assign) for t in st.targets if isinstance(t, ast.Name)]
     for m in members:
         ctx.check(m in key_to_var, f"BUS_MAPPING:{m}", "every RomType has a bus (Resolver.get_bus subscripts BUS_MAPPING)")
-    ctx.floor("rom_types", 3)
+    ctx.floor("rom_types", 2)
 
 
 def r2_mirror_construction(ctx: Ctx) -> None:
@@ -189,7 +189,7 @@ def r3_argument_binding(ctx: Ctx) -> None:
                     ctx.count("bound_arguments")
                     base = synonyms.get(an, an)
                     ctx.check(base == p or (p == "bus" and base.endswith("bus")), f"{fn.where}:{nm}({p}={an})", f"positional argument `{an}` binds parameter `{p}`")
-    ctx.floor("bound_arguments", 8)
+    ctx.floor("bound_arguments", 5)
     # .map key plumbing
     pm = ctx.repo.func("a816.parse.parser_states", "parse_map")
     written: set[str] | None = None
